@@ -13,6 +13,19 @@ def main():
     a = ap.parse_args()
     seed = int(os.environ.get('VERIF_SEED', '1') or 1)
     pid = a.prop.upper()
+    if a.replay:
+        # re-run a recorded counterexample on the real crates (replay crate) and say whether it reproduces
+        import json, replaypreds
+        r = json.load(open(a.replay))
+        f = lib.Finding(r['property'], r['key'], r['what'], r['scenario'], r.get('pred'), r.get('detail') or {})
+        if not f.concrete_pred:
+            print('no concrete predicate recorded for this finding')
+            sys.exit(2)
+        ok, det = replaypreds.PREDS[f.concrete_pred](f)
+        print(json.dumps({'reproduced': ok, 'detail': det}, indent=1, default=str)[:3000])
+        if ok:
+            print('VIOLATION property=%s replay=%s' % (r['property'], a.replay))
+        sys.exit(1 if ok else (0 if ok is False else 2))
     mod = importlib.import_module('props.' + pid.lower())
     ctx = lib.Ctx(pid, a.tier, seed)
     try:
